@@ -166,11 +166,24 @@ def gen_graph(rng, max_procs=6, max_items=4, allow_fanin=True, allow_leaf=True, 
             nout = 0
             leaf_used = True
         outs = ["o1", "o2"][:nout]
-        procs.append(cmd(nm, inports, outs, params, cores=rng.choice([1, 1, 2])))
+        procs.append(cmd(nm, inports, outs, params, cores=rng.choice([1, 1, 2]), kind="gofunc" if rng.random() < 0.12 else "cmd"))
         for o in outs:
             outs_ordered.append((nm + "." + o, length, is_ordered))
     if rng.random() < 0.2:
         procs.append(cmd("solo", [], ["out"]))
+    if rng.random() < 0.2:       # a parameter out-port nobody consumes: the sink gets a parameter stream as well
+        procs.append(psrc("pdangle", ["k1", "k2", "k3"][: rng.randint(0, 3)]))
+    # pass-through tagging component spliced into a source -> process edge; one-port ParamCombinator into a param edge
+    if rng.random() < 0.25:
+        cand = [e for e in edges if e["from"].startswith("s") and e["from"].endswith(".out")]
+        if cand:
+            e = rng.choice(cand)
+            procs.append(dict(name="mt", kind="maptotags", tags={"lane": "l1"}))
+            edges.append(E(e["from"], "mt.in")); e["from"] = "mt.out"
+    if rng.random() < 0.25 and pedges:
+        e = rng.choice(pedges)
+        procs.append(dict(name="pc", kind="pcomb", params=["v"]))
+        pedges.append(E(e["from"], "pc.v")); e["from"] = "pc.v>"
     mx = rng.choice([1, 2, 3])
     mx = max(mx, max(p.get("cores", 1) for p in procs))
     return dict(name=name, max=mx, bufsize=rng.choice([1, 2, 3]), procs=procs, edges=edges,
